@@ -3,6 +3,7 @@ use crate::rng::Rng;
 use crate::{Args, Case};
 
 pub mod control;
+pub mod misc;
 pub mod session;
 pub mod streams;
 
@@ -11,6 +12,7 @@ pub fn generate(suite: &str, rng: &mut Rng, thorough: bool) -> (&'static str, Ve
         "session" => ("E2C", session::generate(rng, thorough)),
         "control" => ("E2C", control::generate(rng, thorough, false)),
         "control_cut" => ("E2C", control::generate(rng, thorough, true)),
+        "emit" | "signals" | "wdgram" | "client" => ("E2C", misc::generate(rng, thorough, suite)),
         "streams" | "foreign" | "unknown_uni" | "stall" | "pace" => ("E2C", streams::generate(rng, thorough, suite)),
         _ => panic!("unknown suite {}", suite),
     }
@@ -21,6 +23,10 @@ pub async fn exec(f: u32, args: &Args) -> Args {
         601 => session::exec(args).await,
         611 => control::exec(args).await,
         621 => streams::exec(args).await,
+        631 => misc::exec_emit(args).await,
+        641 => misc::exec_signals(args).await,
+        651 => misc::exec_dgram(args).await,
+        661 => misc::exec_client(args).await,
         _ => panic!("unknown function id {}", f),
     }
 }
@@ -33,6 +39,7 @@ pub fn oracle(f: u32, args: &Args, out: &Args) -> Option<(&'static str, String)>
         601 => session::oracle(args, out),
         611 => control::oracle(args, out),
         621 => streams::oracle(args, out),
+        631 | 641 | 651 | 661 => misc::oracle(f, args, out),
         _ => None,
     }
 }
